@@ -30,7 +30,8 @@ func (r *verifReader) Read(p []byte) (int, error) {
 }
 
 func VerifC17_CreateAtomic() {
-	dest := rt.Root("/d") + "/sub/dest"
+	root := rt.Root("/d")
+	dest := root + "/sub/dest"
 	rt.NativeAtomicDest(dest)
 	r := &verifReader{chunks: rt.Choice("chunks", 3), fail: rt.Bool("srcfail")}
 	var opts *AtomicFileOptions
@@ -39,8 +40,9 @@ func VerifC17_CreateAtomic() {
 	case 1:
 		opts = &AtomicFileOptions{Mode: 0o600}
 	case 2:
-		opts = &AtomicFileOptions{TempDir: "/caller/tmp"}
-		callerDir = "/caller/tmp"
+		callerDir = root + "/callertmp"
+		opts = &AtomicFileOptions{TempDir: callerDir}
+		rt.NativeAtomicTmpDir(callerDir)
 	}
 	err := CreateAtomic(dest, r, opts)
 	rt.NativeEnd()
@@ -52,22 +54,46 @@ func VerifC17_CreateAtomic() {
 }
 
 func VerifC17_CopyReplaceAtomic() {
-	dest := rt.Root("/d") + "/sub/dest"
+	root := rt.Root("/d")
+	dest := root + "/sub/dest"
 	rt.NativeAtomicDest(dest)
+	src := root + "/src/file"
+	rt.FsCreateFile(src) // natively the source really exists
 	var err error
+	// the caller's options: none, a temporary directory (the mode is then
+	// taken from the source or the destination), a mode, or both
+	var opts *AtomicFileOptions
+	callerDir := ""
+	nOpts := 2
+	if rt.Thorough() {
+		nOpts = 4
+	}
+	switch rt.Choice("opts", nOpts) {
+	case 1:
+		callerDir = root + "/callertmp"
+		opts = &AtomicFileOptions{TempDir: callerDir}
+	case 2:
+		opts = &AtomicFileOptions{Mode: 0o600}
+	case 3:
+		callerDir = root + "/callertmp"
+		opts = &AtomicFileOptions{Mode: 0o600, TempDir: callerDir}
+	}
+	if callerDir != "" {
+		rt.NativeAtomicTmpDir(callerDir)
+	}
 	if rt.Bool("replace") {
-		err = ReplaceFileAtomic(dest, "/src/file", nil)
+		err = ReplaceFileAtomic(dest, src, opts)
 	} else {
-		err = CopyFileAtomic(dest, "/src/file", nil)
+		err = CopyFileAtomic(dest, src, opts)
 	}
 	// the source is only read
 	for i := 0; i < rt.FsLen(); i++ {
-		if rt.FsPath(i) == "/src/file" {
+		if rt.FsPath(i) == src {
 			op := rt.FsOp(i)
 			rt.Assert(op == "stat" || op == "open" || op == "read" || op == "close", "copyatomic/source-only-read")
 		}
 	}
-	checkAtomicPublishIgnoring(dest, "", err, "copyatomic", "/src/file")
+	checkAtomicPublishIgnoring(dest, callerDir, err, "copyatomic", src)
 	rt.Reach("copyatomic-end")
 }
 
